@@ -32,6 +32,7 @@ enum
 	K_MEMSET,
 	K_SPRINT,
 	K_RESET,
+	K_REFUSED_GROWTH, /* an append / formatted print whose buffer growth the allocator refuses: -1, nothing changed, nothing leaked */
 	K_START /* first step: start from a buffer already holding this many bytes (non-initial states) */
 };
 static const int start_fill[] = {0, 31, 4000, 8190, 16383, 65530};
@@ -104,6 +105,7 @@ static void opname(int op, sb_t *o)
 	case K_MEMSET: sb_printf(o, "memset(off#%d,len#%d)", a / NLEN, a % NLEN); break;
 	case K_SPRINT: sb_printf(o, "sprintbuf(%d bytes)", sprint_sizes[a]); break;
 	case K_RESET: sb_puts(o, "reset"); break;
+	case K_REFUSED_GROWTH: sb_printf(o, "%s with its buffer growth refused", a == 0 ? "memappend(room+1)" : a == 1 ? "sprintbuf(300 bytes)" : "memset(bpos, size)"); break;
 	case K_START: sb_printf(o, "start with %d bytes", start_fill[a]); break;
 	}
 }
@@ -281,6 +283,52 @@ static void apply(void *vs, int op, int check)
 		}
 		break;
 	}
+	case K_REFUSED_GROWTH:
+	{
+		long live0 = vf_live();
+		int room = pb->size - pb->bpos, n = a == 1 ? 300 : room + 1, rc;
+		if (n >= MODEL_CAP || (a == 1 && room > 301))
+			break; /* no growth would be needed */
+		for (int k = 0; k < n; k++)
+			srcbuf[k] = 'F';
+		srcbuf[n] = 0;
+		MC_COUNT("calls", 1);
+		/* the formatted print first allocates its temporary (1st call), the growth is the next one */
+		vf_fail_plan(vf_alloc_calls() + (a == 1 ? 2 : 1), 0);
+		if (a == 0)
+			rc = printbuf_memappend(pb, srcbuf, n);
+		else if (a == 1)
+			rc = sprintbuf(pb, "%s", srcbuf);
+		else
+			rc = printbuf_memset(pb, pb->bpos, 'F', pb->size);
+		int fired = vf_fail_fired();
+		vf_fail_plan(0, 0);
+		snprintf(what, sizeof what, "%s with its growth refused", a == 0 ? "memappend" : a == 1 ? "sprintbuf(300)" : "memset");
+		if (!fired)
+		{
+			/* no growth was attempted after all: then the call was an ordinary one */
+			if (rc >= 0 && a != 2)
+			{
+				memcpy(s->m + s->len, srcbuf, (size_t)n);
+				s->len += n;
+			}
+			else if (rc >= 0)
+			{
+				memset(s->m + s->len, 'F', (size_t)pb->bpos - (size_t)s->len);
+				s->len = pb->bpos;
+			}
+			if (check)
+				compare(s, a != 2, what);
+			break;
+		}
+		if (check && rc != -1)
+			fail(s, "refused-growth-not-reported", "%s returned %d", what, rc);
+		if (check && vf_live() != live0)
+			fail(s, "leak", "%s: %ld block(s) allocated by the refused call were not released", what, vf_live() - live0);
+		if (check)
+			compare(s, 0, what);
+		break;
+	}
 	case K_RESET:
 		printbuf_reset(pb);
 		s->len = 0;
@@ -343,6 +391,8 @@ static int menu(void *vs, int *ops, int cap)
 	for (int a = 0; a < NSPR; a++)
 		ops[n++] = (K_SPRINT << 8) | a;
 	ops[n++] = K_RESET << 8;
+	for (int a = 0; a < 3; a++)
+		ops[n++] = (K_REFUSED_GROWTH << 8) | a;
 	return n;
 }
 static uint64_t key(void *vs)
